@@ -38,7 +38,14 @@ def build(spec: dict, tree_copy=False):
         """for operands: a raw python number when marked, else an Expression"""
         if node[0] == 'num' and len(node) > 2 and node[2] == 'raw':
             v = node[1]
-            return int(v) if float(v).is_integer() and abs(v) < 1e6 and (hash(str(v)) % 2 == 0) else float(v)
+            import numpy as np
+
+            # numpy integer scalars are refused by the library ("This is not a valid expression"): a clean refusal,
+            # not C01's subject; numpy floats are floats
+            pick = hash(str(v)) % 5
+            if float(v).is_integer() and abs(v) < 1e6 and pick in (0, 1):
+                return int(v)
+            return np.float64(v) if pick == 2 else float(v)
         if node[0] == 'bool':
             return bool(node[1])
         return B(node)
